@@ -32,5 +32,5 @@ def main(tier, seed, replay=None):
     rep.sigs = set(range(distinct))
     rep.extra["trigger_flags_off"] = flags
     if tier == "thorough":
-        miri_shard(rep, "c17", seed, 150, flags)
+        miri_shard(rep, "c17", seed, 30, flags)
     return rep.finish()
